@@ -17,6 +17,12 @@
 //        client. accept-exh enumerates origin x action x size class x every outcome sequence up to length --scale.
 //        Loopback TCP delivers asynchronously: wherever the harness itself has put bytes in flight it waits (bounded, real time) until its own poll() sees
 //        them before judging the loop; a readiness verdict is a violation only if the needed event bit is missing from the epoll registration.
+//        drain-exh: one backlog is drained in SEVERAL partial sends and after every partial send a small write arrives (from onRead: the send hook lets the
+//        peer say something, the next poll round therefore reports the client readable) - sizes steered by a model of the Buffer policy so that the append hits the
+//        grow / compact / in-place(front offset 0) / in-place(front offset > 0) branches; when the backlog finally drains, the onWrite handler acts: nothing / write /
+//        suspend / suspend+write / write+suspend / remove another client (whose read event is selected in the same batch), with or without peer data that was made
+//        pending before the poll round whose send completes the drain (an event carrying read + write readiness). Enumerates action x pending x size class x
+//        every outcome sequence up to length --scale. rand draws the same two scripts (mid-drain writes, onWrite actions) for half of its cases from a separate stream.
 #include "srv_util.hpp"
 #include <nstd/Socket/Server.hpp>
 #include <nstd/Socket/Socket.hpp>
@@ -27,11 +33,13 @@ using su::Slice;
 
 enum Outcome { O_FULL, O_P1, O_PK, O_PN1, O_AGAIN, O_ERR };
 static const char* const ONAME[] = { "full", "part1", "partk", "partn-1", "eagain", "error" };
-enum OpKind { K_WRITE, K_SUSPEND, K_RESUME, K_READALL, K_READSOME, K_SKIPREAD };
+enum OpKind { K_WRITE, K_SUSPEND, K_RESUME, K_READALL, K_READSOME, K_SKIPREAD, K_REMOVE };
 enum Venue { V_OUT, V_ONREAD, V_ONWRITE, V_ONACCEPTED, V_ONCONNECTED };
 static const char* const VNAME[] = { "outside", "onRead", "onWrite", "onAccepted", "onConnected" };
 enum FreshAct { F_NONE, F_WRITE, F_SUSPEND, F_SUSPEND_WRITE, F_WRITE_SUSPEND, F_WRITE_WRITE, NFRESH };
 static const char* const FNAME[] = { "nothing", "write", "suspend", "suspend+write", "write+suspend", "write+write" };
+enum WriteAct { W_NONE, W_WRITE, W_SUSPEND, W_SUSPEND_WRITE, W_WRITE_SUSPEND, W_REMOVE_OTHER, NWACT };   // what the onWrite handler does (drain-exh, rand)
+static const char* const WNAME[] = { "nothing", "write", "suspend", "suspend+write", "write+suspend", "remove-other" };
 struct Op { int kind; int tgt; long n; int post; };
 
 struct Cm;
@@ -49,6 +57,10 @@ struct Cm {
   u32 inSalt; u64 inSent, inRead;   // peer -> client
   long lastRecvRet; int lastRecvErr;
   Vec<Op> qRead, qWrite;
+  // scripts of drain-exh / rand: small writes that arrive between the partial sends of one backlog, and what onWrite does when the backlog has drained
+  long midLeft; int wAct; bool wActArmed, pendAtDrain, pendScripted; int pendOther; long wSize; int wPost; long partialDrainsOfBacklog, midWritesOfBacklog;
+  // model of the send Buffer's policy (capacity, front offset, size): steers the sizes of the mid-drain writes and feeds coverage counters, never a verdict
+  u64 bufC, bufOff, bufN;
   u64 backlog() const { return out.total(inWrite) - S; }
 };
 
@@ -60,10 +72,31 @@ static bool g_kernel = false, g_inRun = false, g_intrReq = false;
 static long g_rounds = 0, g_roundCap = 0;
 static int g_venue = V_OUT;
 static u64 g_fp = 0;
-static long g_nonfull = 0, g_drains = 0;
+static long g_nonfull = 0, g_drains = 0, g_frontOffsetAppends = 0, g_onWriteActs = 0;
 static u8* g_tmp = 0; enum { TMPSZ = 1 << 17 };
 
 static Cm* byFd(int fd) { int t = ns::tagOf(fd); return t >= 0 && (size_t)t < g_cl.n ? g_cl[(size_t)t] : 0; }
+
+// ---------------------------------------------------------------- model of the send Buffer's policy (Buffer::append/resize/removeFront/free as used by Server::Client)
+static void bufFree(Cm* m) { m->bufC = m->bufOff = m->bufN = 0; }
+static void bufRemoveFront(Cm* m, u64 k) { if (k >= m->bufN) { bufFree(m); return; } m->bufOff += k; m->bufN -= k; }   // a complete drain is followed by free()
+static void bufAppend(Cm* m, u64 k) {
+  u64 ns = m->bufN + k; const char* br;
+  if (ns > m->bufC) { m->bufC = ns; m->bufOff = 0; br = m->bufN ? "grow" : "grow-from-empty"; }
+  else if (m->bufOff + ns <= m->bufC) { br = m->bufOff ? "in-place/front-offset" : "in-place/front-0"; if (m->bufOff) { ++g_frontOffsetAppends; cnt("appends_in_place_behind_front_offset"); } }
+  else { m->bufOff = 0; br = "compact"; cnt("appends_compacting"); }
+  m->bufN = ns;
+  setItem("buffer_append_branches", br);
+}
+// size of a write that arrives after a partial send: mostly smaller than what was just sent, steered towards the in-place / compact / grow branch of the model
+static long midSize(Cm* m) {
+  Rng& r = *g_rng;
+  u64 spare = m->bufC - m->bufOff - m->bufN, off = m->bufOff; u32 x = (u32)r.below(10);
+  if (spare >= 1 && x < 6) return 1 + (long)r.below(spare < 4096 ? spare : 4096);                                  // fits behind the data: in place, front offset > 0
+  if (off >= 2 && x < 9) return (long)spare + 1 + (long)r.below(off - 1 < 4096 ? off - 1 : 4096);                  // fits only after moving the data to the front; leaves room
+  if (x < 9) return (long)(spare + off);                                                                           // fills the buffer exactly
+  return (long)(spare + off) + 1 + (long)r.below(64);                                                              // does not fit: grow
+}
 
 // ---------------------------------------------------------------- peer side
 static void drainPeer(Cm* m, long limit = -1) {
@@ -142,14 +175,34 @@ static void hSendDone(int fd, const void* buf, size_t len, long ret, int err) {
     m->S += (u64)ret;
     if ((size_t)ret < len) { ++g_nonfull; if (g_kernel) { cnt("send_partial"); setItem("send_outcomes", m->inWrite ? "direct/kernel-partial" : "backlog/kernel-partial"); } }
     else if (g_kernel) { cnt("send_full"); setItem("send_outcomes", m->inWrite ? "direct/kernel-full" : "backlog/kernel-full"); }
-    if (!m->inWrite && before > 0 && m->backlog() == 0) { m->pendingOnWrite = true; ++m->transitions; ++g_drains; cnt("backlog_drained"); }
+    if (!m->inWrite && before > 0 && m->backlog() == 0) {
+      m->pendingOnWrite = true; ++m->transitions; ++g_drains; cnt("backlog_drained");
+      if (m->partialDrainsOfBacklog >= 2) cnt("backlogs_drained_in_3plus_sends");
+      if (m->midWritesOfBacklog >= 2) cnt("backlogs_with_2plus_mid_drain_writes");
+      m->partialDrainsOfBacklog = m->midWritesOfBacklog = 0;
+    }
+    if (!m->inWrite) {
+      bufRemoveFront(m, (u64)ret);
+      if (m->backlog() > 0) {
+        // partial drain: the front of the buffer is now ahead of its start. Scripted: a small write arrives before the next send (the peer says something, so the
+        // next poll round reports the client readable and onRead issues the write)
+        ++m->partialDrainsOfBacklog; cnt("partial_drains");
+        if (m->midLeft > 0 && g_inRun && !m->suspended && !m->removed && !m->peerClosed && m->pfd >= 0) {
+          --m->midLeft;
+          Op w = { K_WRITE, m->id, midSize(m), g_rng->chance(2, 3) ? 1 : 0 };
+          m->qRead.insert(0, w);
+          cnt("mid_drain_writes_scripted");
+          peerSend(m, 1 + (long)g_rng->below(8));
+        }
+      }
+    }
   } else if (ret < 0 && (err == EAGAIN || err == EWOULDBLOCK)) {
     ++g_nonfull;
     if (g_kernel) { cnt("send_eagain"); setItem("send_outcomes", m->inWrite ? "direct/kernel-eagain" : "backlog/kernel-eagain"); }
   } else {
     if (ret == 0) harnessBug("send returned 0");
     m->expectClosed = true;
-    if (m->inWrite) m->errInThisWrite = true; else { m->backlogDropped = true; cnt("hard_error_in_loop"); }
+    if (m->inWrite) m->errInThisWrite = true; else { m->backlogDropped = true; bufFree(m); cnt("hard_error_in_loop"); }
   }
 }
 
@@ -165,6 +218,18 @@ static void hWaitEnter(int epfd, int timeout) {
     Cm* m = g_cl[i]; m->inBatch = false;
     if (m->pendingOnWrite && !m->removed) fail("Server.Client.onWrite/missing-after-drain", "client %d: the backlog drained (send log) but the loop polls again without having called onWrite", m->id);
   }
+  // scripted: peer data is made pending just before the poll round whose send will complete the drain (the event then carries read AND write readiness);
+  // for "remove-other" the other client's read event is put into the same batch
+  if (!g_kernel) for (size_t i = 0; i < g_cl.n; ++i) {
+    Cm* m = g_cl[i];
+    if (!m->pendAtDrain || m->removed || m->suspended || m->backlogDropped || m->peerClosed || m->pfd < 0 || m->backlog() == 0) continue;
+    u64 len = m->backlog(); int o = g_planPos < g_plan.n ? g_plan[g_planPos] : O_FULL;
+    bool drains = o == O_FULL || (o == O_P1 && len == 1) || (o == O_PK && len < 3) || (o == O_PN1 && len < 2);
+    if (!drains) continue;
+    m->pendAtDrain = false; cnt("peer_data_injected_before_draining_poll");
+    peerSend(m, 1 + (long)g_rng->below(16));
+    if (m->pendOther >= 0 && (size_t)m->pendOther < g_cl.n && !g_cl[(size_t)m->pendOther]->removed) peerSend(g_cl[(size_t)m->pendOther], 1 + (long)g_rng->below(16));
+  }
 }
 
 static void hWaitLeave(int epfd, int n, struct epoll_event* ev) {
@@ -173,7 +238,13 @@ static void hWaitLeave(int epfd, int n, struct epoll_event* ev) {
   for (int i = 0; i < n; ++i) {
     void* p = ev[i].data.ptr; if (!p) continue;
     void* sock = *(void**)p;   // Poll::Private::SocketInfo::socket (first member) - used for coverage counters only
-    for (size_t j = 0; j < g_cl.n; ++j) if (!g_cl[j]->removed && (void*)g_cl[j]->c == sock) { g_cl[j]->inBatch = true; ++k; }
+    for (size_t j = 0; j < g_cl.n; ++j) if (!g_cl[j]->removed && (void*)g_cl[j]->c == sock) {
+      g_cl[j]->inBatch = true; ++k;
+      if ((ev[i].events & EPOLLIN) && (ev[i].events & EPOLLOUT) && g_cl[j]->backlog() > 0) {
+        cnt("events_readable_and_writable_with_backlog");
+        if (g_cl[j]->wActArmed && (g_cl[j]->wAct == W_SUSPEND || g_cl[j]->wAct == W_SUSPEND_WRITE || g_cl[j]->wAct == W_WRITE_SUSPEND)) cnt("events_readable_and_writable_with_onWrite_suspend_scripted");
+      }
+    }
   }
   if (k >= 2) cnt("batches_with_2plus_clients");
   statMax("max_events_in_batch", n);
@@ -290,6 +361,8 @@ static void doWrite(Cm* m, long size, bool usePost) {
   if (ok) {
     m->out.acc.push(m->out.pend); m->out.accepted += (u64)size;
     cnt("writes_true"); cnt("bytes_accepted", size);
+    if (hadBacklog) { bufAppend(m, (u64)size); if (g_inRun && m->partialDrainsOfBacklog > 0) { ++m->midWritesOfBacklog; cnt("writes_between_partial_drains"); } }
+    else if (m->backlog() > 0) { bufFree(m); bufAppend(m, m->backlog()); }
     if (m->errInThisWrite) fail("Server.Client.write/hard-error/returned-true", "client %d: send failed with a hard error inside write() but write() returned true", m->id);
     u64 want = m->backlog();
     char key[128];
@@ -356,6 +429,14 @@ static void execOp(Cm* self, const Op& op) {
     if (t->c->isSuspended()) fail("Server.Client.isSuspended/after-resume", "client %d: isSuspended() true after resume()", t->id);
     setctx(g_inRun ? "Server.run" : "driver");
     break;
+  case K_REMOVE:
+    if (t->inBatch && t != self) cnt("remove_while_event_selected");
+    setctxf("Server.remove(Client)/%s%s", VNAME[g_venue], t->inBatch && t != self ? "/event-selected" : "");
+    hist.addf("  [%s] remove(client%d)%s\n", VNAME[g_venue], t->id, t->inBatch && t != self ? " (event selected, undelivered)" : "");
+    if (t->origin != 0) { drainPeer(t); settlePeer(t); }
+    g_srv->remove(*t->c); t->removed = true; ns::unregisterFd(t->fd); cnt("removes_in_callback");
+    setctx(g_inRun ? "Server.run" : "driver");
+    break;
   case K_READALL: if (g_inRun && t == self) readFrom(t, -1); break;
   case K_READSOME: if (g_inRun && t == self) readFrom(t, op.n); break;
   default: break;
@@ -402,6 +483,28 @@ void CB::onWrite() {
   m->pendingOnWrite = false;
   checkBacklogValue(m, "onWrite");
   int saved = g_venue; g_venue = V_ONWRITE;
+  if (m->wActArmed) {
+    // scripted reaction to the drain (flow control: stop reading after the response went out, answer at once, drop another connection)
+    m->wActArmed = false; ++g_onWriteActs;
+    const int act = m->wAct; const u64 unread = m->inSent - m->inRead;
+    Op w = { K_WRITE, m->id, m->wSize, m->wPost }, sus = { K_SUSPEND, m->id, 0, 0 }, rm = { K_REMOVE, m->pendOther, 0, 0 };
+    hist.addf("  the onWrite handler does: %s (%llu inbound byte(s) unread)\n", WNAME[act], (unsigned long long)unread);
+    bool wrote = false;
+    switch (act) {
+    case W_WRITE: execOp(m, w); wrote = true; break;
+    case W_SUSPEND: execOp(m, sus); break;
+    case W_SUSPEND_WRITE: execOp(m, sus); execOp(m, w); wrote = true; break;
+    case W_WRITE_SUSPEND: execOp(m, w); execOp(m, sus); wrote = true; break;
+    case W_REMOVE_OTHER: if (m->pendOther >= 0 && m->pendOther != m->id) execOp(m, rm); break;
+    default: break;
+    }
+    cnt("onWrite_acts");
+    if (act == W_SUSPEND || act == W_SUSPEND_WRITE || act == W_WRITE_SUSPEND) cnt("suspends_in_onWrite");
+    if (wrote) { cnt("writes_in_onWrite_act"); if (m->backlog() > 0) cnt("writes_in_onWrite_act_leaving_backlog"); }
+    char nm[96]; snprintf(nm, sizeof nm, "%s/%s/%s", WNAME[act], m->pendScripted ? "peer-data-before-drain" : "quiet-peer", !wrote ? "-" : m->expectClosed ? "hard-error" : m->backlog() > 0 ? "backlog" : "sent-completely");
+    setItem("onWrite_acts", nm);
+    g_fp = mix(g_fp, 9000 + (u64)act * 2 + (m->pendScripted ? 1 : 0));
+  }
   int nops = 0;
   while (m->qWrite.n && nops < 2 && !m->removed) { Op op = m->qWrite[0]; m->qWrite.removeAt(0); ++nops; execOp(m, op); }
   g_venue = saved;
@@ -449,6 +552,8 @@ static Cm* newCm(int id, int origin) {
   m->id = id; m->cb.m = m; m->origin = origin; m->c = 0; m->fd = m->pfd = -1; m->S = m->peerGot = 0; m->inWrite = m->errInThisWrite = m->backlogDropped = m->suspended = m->closedSeen = m->expectClosed = m->removed = m->pendingOnWrite = m->peerClosed = m->peerEof = m->inBatch = false;
   m->lastOutcome = -1; m->onWriteCount = m->transitions = m->onReadCount = 0; m->inSent = m->inRead = 0; m->lastRecvRet = 0; m->lastRecvErr = 0;
   m->out.salt = (u32)(id * 2 + 11); m->inSalt = (u32)(id * 2 + 12);
+  m->midLeft = 0; m->wAct = W_NONE; m->wActArmed = m->pendAtDrain = m->pendScripted = false; m->pendOther = -1; m->wSize = 1; m->wPost = 0; m->partialDrainsOfBacklog = m->midWritesOfBacklog = 0;
+  m->bufC = m->bufOff = m->bufN = 0;
   return m;
 }
 
@@ -469,7 +574,7 @@ static Cm* addClient(int id) {
 
 static void beginWorld(int nclients) {
   ns::reset(); ns::mode = ns::VIRTUAL;
-  g_planPos = 0; g_rounds = 0; g_intrReq = false; g_inRun = false; g_venue = V_OUT; g_fp = 0; g_nonfull = 0; g_drains = 0;
+  g_planPos = 0; g_rounds = 0; g_intrReq = false; g_inRun = false; g_venue = V_OUT; g_fp = 0; g_nonfull = 0; g_drains = 0; g_frontOffsetAppends = 0; g_onWriteActs = 0;
   g_srv = new Server;
   if (g_kernel) g_srv->setSendBufferSize(1);   // the kernel rounds up to its minimum (4608 on this kernel): genuine partial sends and EAGAIN
   for (int i = 0; i < nclients; ++i) addClient(i);
@@ -623,6 +728,7 @@ static void endWorld(Rng& r) {
     Cm* m = g_cl[i];
     for (size_t k = m->qRead.n; k-- > 0;) if (m->qRead[k].kind == K_SUSPEND) m->qRead.removeAt(k);
     for (size_t k = m->qWrite.n; k-- > 0;) if (m->qWrite[k].kind == K_SUSPEND) m->qWrite.removeAt(k);
+    m->wActArmed = false; m->pendAtDrain = false;
   }
   for (size_t i = 0; i < g_cl.n; ++i) { Cm* m = g_cl[i]; if (!m->removed && m->suspended) { Op op = { K_RESUME, (int)i, 0, 0 }; execOp(m, op); } }
   pump();
@@ -750,6 +856,40 @@ static void acceptExhCase(long idx) {
   endCase(fp, nontrivial);
 }
 
+// enumerated: what onWrite does x peer data pending before the draining poll round x size class x every outcome sequence; after EVERY partial send of the backlog a small
+// write arrives (mid-drain script), so one backlog sees (partial drain, small write) two or more times whenever the plan holds two or more partial outcomes in a row
+static void drainCase(long idx) {
+  Rng r(opts.seed, 1310, (u64)idx);
+  g_rng = &r; g_kernel = false;
+  long v = idx;
+  int act = (int)(v % NWACT); v /= NWACT;
+  int pend = (int)(v % 2); v /= 2;
+  int cls = 1 + (int)(v % 2); v /= 2;
+  decodePlan(v, 1, g_plan);
+  hist.addf("onWrite does: %s, peer data before the draining poll: %s, size-class %d, a small write after every partial send, plan:", WNAME[act], pend ? "yes" : "no", cls);
+  for (size_t i = 0; i < g_plan.n; ++i) hist.addf(" %s", ONAME[g_plan[i]]); hist.add("\n");
+  g_roundCap = 4000 + 400 * (long)g_plan.n;
+  beginWorld(2);
+  Cm* m = g_cl[0];
+  m->midLeft = 2 + (long)g_plan.n;
+  m->wAct = act; m->wActArmed = true; m->wSize = pickSize(r, (int)r.below(2)); m->wPost = r.chance(2, 3) ? 1 : 0; m->pendOther = 1; m->pendAtDrain = m->pendScripted = pend != 0;
+  int writes = 0, maxWrites = (int)g_plan.n + 3; bool followed = false;
+  while ((g_planPos < g_plan.n || writes < 1) && writes < maxWrites && !m->removed) {
+    Op op = { K_WRITE, 0, pickSize(r, cls), r.chance(2, 3) ? 1 : 0 };
+    if (m->suspended) { Op res = { K_RESUME, 0, 0, 0 }; execOp(m, res); }
+    execOp(m, op); ++writes;
+    pump();
+    if (!followed && !m->removed && m->suspended) { followed = true; cnt("followups_after_onWrite_suspend"); freshFollowUp(r, m, cls); }
+  }
+  if (g_planPos >= g_plan.n) cnt("drain_plans_fully_consumed");
+  if (g_frontOffsetAppends >= 1) cnt("cases_with_append_behind_front_offset");
+  u64 fp = mix(g_fp, (u64)idx);
+  bool nontrivial = g_nonfull > 0;
+  endWorld(r);
+  if (idx % 997 == 0) sample("%s", hist.c());
+  endCase(fp, nontrivial);
+}
+
 // ---------------------------------------------------------------- random long plans, several clients
 // fresh: client 0 comes out of a listener / an establisher and its accept / connect callback acts on it (accept-rand, accept-kernel); the others are pair clients
 static void randCase(long idx, bool kernel, bool fresh = false) {
@@ -779,6 +919,22 @@ static void randCase(long idx, bool kernel, bool fresh = false) {
     Cm* m = freshPhase(r, origin, act, s0, s1);
     for (int i = 1; i < ncl; ++i) addClient(i);
     if (r.chance(1, 2)) freshFollowUp(r, m, -1);
+  }
+  // half of the scripted-fault cases additionally carry the drain scripts (own stream: the script below is the same with and without them)
+  Rng xr(opts.seed, 1309, (u64)idx);
+  if (!kernel && xr.chance(1, 2)) {
+    cnt("rand_cases_with_drain_scripts");
+    for (size_t i = 0; i < g_cl.n; ++i) {
+      Cm* m = g_cl[i]; if (m->removed) continue;
+      if (xr.chance(2, 3)) m->midLeft = 1 + (long)xr.below(6);
+      if (xr.chance(1, 2)) {
+        static const long WS[] = { 1, 7, 512, 4096, 65536 };
+        m->wAct = (int)xr.below(NWACT); m->wActArmed = true; m->wSize = WS[xr.below(5)]; m->wPost = xr.chance(2, 3) ? 1 : 0;
+        m->pendAtDrain = m->pendScripted = xr.chance(2, 3);
+        m->pendOther = g_cl.n >= 2 ? (int)((i + 1 + xr.below(g_cl.n - 1)) % g_cl.n) : -1;
+        if (m->wAct == W_REMOVE_OTHER && (m->pendOther < 0 || g_cl[(size_t)m->pendOther]->origin != 0)) m->wAct = W_NONE;   // the fresh TCP client is not the one that is dropped
+      }
+    }
   }
   int steps = 8 + (int)r.below(33);
   static const long SZ[] = { 1, 7, 512, 4096, 65536, 300000 };
@@ -847,6 +1003,10 @@ int main(int argc, char** argv) {
   } else if (!strcmp(md, "rand") || !strcmp(md, "kernel")) {
     bool kernel = !strcmp(md, "kernel");
     for (long idx = opts.start; idx < opts.start + opts.cases; ++idx) { if (!mine(idx)) continue; beginCase(idx); randCase(idx, kernel); }
+  } else if (!strcmp(md, "drain-exh")) {
+    long total = (long)NWACT * 2 * 2 * pow5sum(1, L);
+    long lo = opts.cases < 0 ? 0 : opts.start, hi = opts.cases < 0 ? total : opts.start + opts.cases;
+    for (long idx = lo; idx < hi; ++idx) { if (!mine(idx)) continue; beginCase(idx); drainCase(idx); }
   } else if (!strcmp(md, "accept-exh")) {
     long total = 2L * NFRESH * 3 * pow5sum(1, L);
     long lo = opts.cases < 0 ? 0 : opts.start, hi = opts.cases < 0 ? total : opts.start + opts.cases;
